@@ -4,11 +4,17 @@ crystal  {'kind': fcc|bcc|hcp|b2|l12, 'a': float, 'ca': float (hcp), 'orient': i
           of integer re-orientation vectors, resolved modulo its length; 0 = standard setting),
           'extra': [3 ints] supercell multipliers added to the minimum the cutoff needs,
           'rot': None | [axis, angle_deg] rigid rotation of atoms and cell, 'origin': [3] cell origin,
+          'sperm': int (0 = none; else one of the 23 proper signed permutations of the Cartesian axes applied to atoms and
+          cell after 'rot': cell vectors along -x, +z, ... with exact zeros and negative entries), 'vperm': int (0..5:
+          relabelling of the three cell vectors a, b, c; odd ones give a left-handed cell), 'limit': None | str (whole-number
+          crystals only: the cell is shifted by a whole vector so that the extreme coordinate is the limit of a narrow integer dtype),
           'perm': int (0 = atoms in construction order, else seed of a Fisher-Yates renumbering)}
 shells   {'gap': int (which gap between neighbour shells holds the cutoff, resolved modulo the number of admissible
           gaps), 'frac': float in [0,1] position of the cutoff inside the admissible part of the gap}
 F        {'rot': None | [axis, angle<=8], 'E': [6 floats in [-1,1]] (direction of the symmetric part, normalised in
-          the oracle), 'emag': spectral norm of the symmetric part (<= 0.03)}
+          the oracle), 'emag': spectral norm of the symmetric part (<= 0.03; also decades 1e-4 .. 1e-12: almost no strain),
+          the angle also 1e-3 .. 1e-9 degrees; or 'M': [9] exactly structured F = I + M (identity, diagonal, strictly lower /
+          upper triangular, entries +-k/256 incl. negative ones)}
 move     {'t': [3] rigid translation of the deformed system, 'boxshift': [3] relative shift of the deformed cell
           against its atoms (atoms are then wrapped back into it: same periodic crystal, other images)}
 hist     {'ops0': [query, ...] earlier queries on the reference System object, 'ops1': [...] on the deformed one
@@ -25,12 +31,22 @@ lscale   int k: the length unit of the whole case.  Every length of the case (la
           as drawn, Angstrom-like, a healthy third; k = -10: the same crystal in metres, atomman's working units may be SI;
           k = -1: nm; k > 0: pm / fm-like large numbers).  Relative quantities (F, box shifts, slip in nearest-neighbour
           distances, cutoff position inside a shell gap) are not touched.
+io       {'pdt': dtype code of the stored positions (0 = float64 / int64 as before; 'be' big-endian float64 - exact for every
+          case -; 'f32' single precision: the displacement clause rounds both systems to it first, the other clauses use it where the
+          values are exactly representable; 'int' / 'f16': whole-number crystals in the narrowest integer dtype of a drawn menu /
+          in half precision), 'idt': int (which integer dtype), 'adt': int (spelling of vector / matrix arguments: list, tuple,
+          read-only, strided view, big-endian, narrowest exact dtype), 'scal': int (bit field: numpy scalars of other dtypes
+          for cutoff, theta_max, reference), 'twin': bool (the same tools on another pair of systems of the SAME size
+          afterwards; everything handed out before is re-judged bit for bit at the end - the result ledger), 'scribble': bool
+          (the caller overwrites in place what it handed in and what it was handed out, re-uses the buffers, calls again)}
 shist    None | {'mode': inplace|pvec|theta, 'F0': gradient, 'move0': move, 'reads0': [property names read before the
           change], 'resolve': solve|solve_theta|clear|setter, 'pset': int, 'order': int}: one Strain object is solved in an
           earlier state (other deformation of the same System object / other reference vectors / other theta_max),
           read, changed through its public methods and solved again; the second state is the judged one
 """
+import copy
 import functools
+import itertools
 
 from hypothesis import strategies as st
 
@@ -62,13 +78,18 @@ def orient_menu(kind):
 
 _kind = st.sampled_from(KINDS)
 _a = gens.nice(2.5, 5.5, 3)
-_ca = st.one_of(st.sampled_from([(8.0 / 3.0) ** 0.5, 1.57, 1.6, 1.65, 1.86]), gens.nice(1.55, 1.9, 3))
+_IDEAL = (8.0 / 3.0) ** 0.5
+# near-threshold: c/a a relative 1e-3 .. 1e-12 away from ideal (the two first-neighbour distances almost equal)
+_ca_near = st.sampled_from([_IDEAL * (1.0 + sg * 10.0 ** -k) for k in (3, 5, 7, 9, 12) for sg in (1, -1)])
+_ca = st.one_of(st.sampled_from([_IDEAL, 1.57, 1.6, 1.65, 1.86]), gens.nice(1.55, 1.9, 3), gens.nice(1.55, 1.9, 3), _ca_near)
 _orient = st.one_of(st.just(0), st.integers(1, 20))
 _extra = st.sampled_from([0, 0, 0, 1, 1, 2])
 _rot = st.one_of(st.none(), gens.rotations(min_angle=1.0))
 _origin = st.one_of(st.just([0.0, 0.0, 0.0]),
                     st.lists(gens.nice(-30.0, 30.0, 3), min_size=3, max_size=3))
 _perm = st.one_of(st.just(0), st.integers(1, 2 ** 31))
+_sperm = st.one_of(st.just(0), st.just(0), st.integers(1, 23))
+_vperm = st.sampled_from([0, 0, 0, 0, 1, 2, 3, 4, 5])
 _bool = st.booleans()
 _unit = gens.nice(0.0, 1.0, 4)
 _sunit = gens.nice(-1.0, 1.0, 4)
@@ -79,7 +100,8 @@ def crystals(draw):
     kind = draw(_kind)
     return {'kind': kind, 'a': draw(_a), 'ca': draw(_ca) if kind == 'hcp' else 0.0,
             'orient': draw(_orient), 'extra': [draw(_extra) for _ in range(3)],
-            'rot': draw(_rot), 'origin': draw(_origin), 'perm': draw(_perm)}
+            'rot': draw(_rot), 'origin': draw(_origin), 'perm': draw(_perm), 'sperm': draw(_sperm), 'vperm': draw(_vperm),
+            'limit': None}
 
 
 CRYSTALS = crystals()
@@ -96,12 +118,37 @@ SHELLS = shells()
 
 _smallrot = gens.rotations(min_angle=0.05, max_angle=8.0)
 _emag = st.one_of(gens.nice(0.001, 0.03, 5), st.just(0.03))
-_fkind = st.sampled_from(['both', 'both', 'both', 'rot', 'strain'])
+_fkind = st.sampled_from(['both', 'both', 'both', 'both', 'rot', 'strain', 'tiny', 'tiny', 'struct', 'struct'])
+# near-threshold: almost no strain / almost no rotation (relative 1e-4 .. 1e-12 from the undeformed special case)
+_tinymag = st.sampled_from([1e-4, 1e-5, 1e-6, 1e-7, 1e-8, 1e-8, 1e-9, 1e-10, 1e-12])
+_tinyang = st.sampled_from([1e-3, 1e-4, 1e-5, 1e-6, 1e-7, 1e-9])
+_axis = st.sampled_from([[0, 0, 1], [1, 0, 0], [0, 1, 0], [1, 1, 0], [1, 1, 1], [1, -2, 3]])
+_tinykind = st.sampled_from(['both', 'both', 'E', 'R'])
+# exactly structured: F = I + M with M zero / diagonal / strictly lower / strictly upper triangular / full, entries k/256
+_skind = st.sampled_from(['identity', 'diag', 'lower', 'lower', 'upper', 'upper', 'full'])
+_dy = st.integers(-4, 4).map(lambda k: k / 256.0)
+_dy_full = st.integers(-2, 2).map(lambda k: k / 256.0)
+_SLOTS = {'identity': (), 'diag': (0, 4, 8), 'lower': (3, 6, 7), 'upper': (1, 2, 5), 'full': tuple(range(9))}
 
 
 @st.composite
 def gradients(draw):
     k = draw(_fkind)
+    if k == 'struct':
+        sk = draw(_skind)
+        M = [0.0] * 9
+        for j in _SLOTS[sk]:
+            M[j] = draw(_dy_full if sk == 'full' else _dy)
+        if sk != 'identity' and not any(M):
+            M[_SLOTS[sk][0]] = -1.0 / 64.0
+        return {'rot': None, 'E': [0.0] * 6, 'emag': 0.0, 'M': M, 'skind': sk}
+    if k == 'tiny':
+        tk = draw(_tinykind)
+        rot = [draw(_axis), draw(_tinyang)] if tk in ('both', 'R') else draw(_smallrot)
+        E = [draw(_sunit) for _ in range(6)]
+        if not any(E):
+            E[0] = 1.0
+        return {'rot': rot, 'E': E, 'emag': draw(_tinymag) if tk in ('both', 'E') else draw(_emag)}
     rot = draw(_smallrot) if k in ('both', 'rot') else None
     if k in ('both', 'strain'):
         E = [draw(_sunit) for _ in range(6)]
@@ -119,7 +166,10 @@ GRADIENTS = gradients()
 _t = st.one_of(st.just([0.0, 0.0, 0.0]),
                st.lists(gens.nice(-3.0, 3.0, 3), min_size=3, max_size=3),
                st.lists(gens.nice(-60.0, 60.0, 2), min_size=3, max_size=3))
-_boxshift = st.one_of(st.just([0.0, 0.0, 0.0]), st.lists(gens.nice(-0.95, 0.95, 3), min_size=3, max_size=3))
+# near-threshold: atoms a relative 1e-3 .. 1e-12 away from a periodic face of the cell they are wrapped into
+_facefrac = st.sampled_from([0.0, 1e-3, -1e-3, 1e-6, -1e-6, 1e-9, -1e-9, 1e-12, -1e-12])
+_boxshift = st.one_of(st.just([0.0, 0.0, 0.0]), st.lists(gens.nice(-0.95, 0.95, 3), min_size=3, max_size=3),
+                      st.lists(gens.nice(-0.95, 0.95, 3), min_size=3, max_size=3), st.lists(_facefrac, min_size=3, max_size=3))
 
 
 @st.composite
@@ -138,6 +188,7 @@ _ref01 = st.sampled_from([0, 1])
 _quarter = st.integers(0, 3)
 _lazy = st.sampled_from([0, 0, 1, 2, 3, 4, 5, 5, 6])
 _third = st.integers(0, 2)
+_nyeflag = st.sampled_from([True] * 2 + [False] * 3)
 _cfg = st.sampled_from(['F', 'slip'])
 _cut = st.integers(0, 2)
 _layer = st.integers(0, 10 ** 6)
@@ -154,7 +205,7 @@ _nq = st.sampled_from([0, 1, 1, 2, 2, 3])
 _small = st.integers(0, 11)
 _state = st.sampled_from(['ref', 'other'])
 _forms = st.one_of(st.just(0), st.integers(0, 15))
-_intpos = st.sampled_from([False] * 9 + [True])
+_intpos = st.sampled_from([False] * 17 + [True] * 3)
 _whole_origin = st.lists(st.integers(-20, 20).map(float), min_size=3, max_size=3)
 
 
@@ -208,17 +259,40 @@ def strain_histories(draw):
 _shist = st.one_of(st.none(), strain_histories())
 
 
-def whole_number_crystal(xt, origin):
+def whole_number_crystal(xt, origin, limit=None):
     """the same case on a cubic crystal whose coordinates are whole numbers (handed over as integers)"""
-    return dict(xt, kind='fcc' if xt['kind'] == 'hcp' else xt['kind'], a=4.0, ca=0.0, orient=0, rot=None, origin=origin)
+    return dict(xt, kind='fcc' if xt['kind'] == 'hcp' else xt['kind'], a=4.0, ca=0.0, orient=0, rot=None, origin=origin, limit=limit)
+
+
+# storage dtype of the positions (see module docstring): general crystals / whole-number crystals
+_pdt = st.sampled_from([0] * 9 + ['be', 'f32', 'f32'])
+_pdt_whole = st.sampled_from([0, 0, 0, 'int', 'int', 'int', 'int', 'f16', 'f16', 'f32', 'be'])
+_idt = st.integers(0, 11)
+_limit = st.sampled_from([None, None, None, 'i1max', 'i1min', 'u1max', 'i2max', 'i2min', 'u2max'])
+_adt = st.one_of(st.just(0), st.integers(0, 6))
+_scal = st.one_of(st.just(0), st.integers(0, 15))
+_twin = st.sampled_from([False, False, True])
+
+
+@st.composite
+def ios(draw, whole=False):
+    return {'pdt': draw(_pdt_whole if whole else _pdt), 'idt': draw(_idt), 'adt': draw(_adt), 'scal': draw(_scal),
+            'twin': draw(_twin), 'scribble': draw(_bool)}
+
+
+IOS = ios()
+IOS_WHOLE = ios(whole=True)
 
 
 def _with_history(draw, c, hist):
     h = draw(hist)
     c['lscale'] = draw(_lscale)
     if h['intpos']:
-        c['xtal'] = whole_number_crystal(c['xtal'], draw(_whole_origin))
+        c['xtal'] = whole_number_crystal(c['xtal'], draw(_whole_origin), draw(_limit))
         c['lscale'] = max(0, c['lscale'])          # whole numbers stay whole numbers in a smaller unit only
+        c['io'] = draw(IOS_WHOLE)
+    else:
+        c['io'] = draw(IOS)
     c['hist'] = h
     return c
 
@@ -237,12 +311,20 @@ def strain_cases(draw):
 
 # ----------------------------------------------------------------------------- slip
 
-_angle = st.one_of(gens.nice(0.0, 360.0, 2), gens.nice(0.0, 360.0, 2), gens.nice(0.0, 360.0, 2), st.sampled_from([0.0, 90.0, 180.0, 60.0]))
-_smag = st.one_of(gens.nice(0.01, 0.4, 4), st.just(0.4))
+# near-threshold: a direction 1e-3 .. 1e-12 degrees away from a cell edge / a close-packed direction
+_angle_near = st.sampled_from([b + sg * 10.0 ** -k for b in (0.0, 90.0, 180.0, 270.0, 60.0, 45.0) for k in (3, 6, 9, 12) for sg in (1, -1)])
+_angle = st.one_of(gens.nice(0.0, 360.0, 2), gens.nice(0.0, 360.0, 2), gens.nice(0.0, 360.0, 2), gens.nice(0.0, 360.0, 2),
+                   gens.nice(0.0, 360.0, 2), gens.nice(0.0, 360.0, 2), st.sampled_from([0.0, 90.0, 180.0, 60.0]),
+                   st.sampled_from([0.0, 90.0, 180.0, 60.0]), _angle_near)
+# ... and a slip of 1e-3 .. 1e-10 nearest-neighbour distances (almost no slip)
+_smag = st.one_of(gens.nice(0.01, 0.4, 4), gens.nice(0.01, 0.4, 4), gens.nice(0.01, 0.4, 4), gens.nice(0.01, 0.4, 4), gens.nice(0.01, 0.4, 4),
+                  gens.nice(0.01, 0.4, 4), st.just(0.4), st.just(0.4), st.sampled_from([1e-3, 1e-4, 1e-6, 1e-8, 1e-10]))
 _split = st.one_of(st.sampled_from([1.0, 0.0, 0.5]), _unit)
 _inpbc = st.sampled_from([[True, True]] * 5 + [[True, False], [False, True], [False, False]])
 _cutpbc = st.sampled_from([False, False, False, True])
-_planefrac = gens.nice(0.1, 0.9, 3)
+# ... and a slip plane a relative 1e-3 .. 1e-9 of the layer gap away from one of the two atomic planes it lies between
+_planefrac = st.one_of(gens.nice(0.1, 0.9, 3), gens.nice(0.1, 0.9, 3), gens.nice(0.1, 0.9, 3), gens.nice(0.1, 0.9, 3),
+                       st.sampled_from([1e-3, 1e-6, 1e-9, 1.0 - 1e-3, 1.0 - 1e-6, 1.0 - 1e-9]))
 _ofs = gens.nice(-20.0, 20.0, 2)
 
 
@@ -263,18 +345,22 @@ def slip_cases(draw):
     c = {'xtal': draw(CRYSTALS), 'shells': draw(SHELLS), 'slip': draw(SLIPS),
          'm_angle': draw(_angle), 'n_flip': draw(_bool), 'plane_ofs': [draw(_ofs), draw(_ofs)],
          'ddref': draw(_ref01), 'ddnbr': draw(_nbrmode), 'svnbr': draw(_nbrmode3),
-         'nye': draw(_third) == 0, 'theta': draw(_theta), 'ddlazy': draw(_lazy)}
+         'nye': draw(_nyeflag), 'theta': draw(_theta), 'ddlazy': draw(_lazy)}
     return _with_history(draw, c, HISTORIES)
 
 
 # ----------------------------------------------------------------------------- displacement
 
-_umode = st.sampled_from(['F', 'F', 'slip', 'random', 'random', 'big'])
+_umode = st.sampled_from(['F', 'F', 'F', 'slip', 'slip', 'random', 'random', 'random', 'big', 'big', 'decades', 'decades'])
 _boxref = st.sampled_from(['default', 'final', 'initial', 'none'])
-_amp = st.one_of(gens.nice(0.0, 0.45, 3), st.just(0.45))
+_amp = st.one_of(gens.nice(0.0, 0.45, 3), gens.nice(0.0, 0.45, 3), gens.nice(0.0, 0.45, 3), gens.nice(0.0, 0.45, 3), st.just(0.45),
+                 st.sampled_from([1e-4, 1e-6, 1e-8, 1e-10, 1e-12]))
+_ndec = st.integers(8, 12)
+_dtop = st.sampled_from([0.4, 0.1, 0.03, 1.0])
 _seed = st.integers(1, 2 ** 31)
 _pbc_any = st.sampled_from([[True, True, True]] * 3 + gens.PBCS)
-_bigt = st.lists(gens.nice(-2.5, 2.5, 3), min_size=3, max_size=3)
+_bigt = st.one_of(st.lists(gens.nice(-2.5, 2.5, 3), min_size=3, max_size=3), st.lists(gens.nice(-2.5, 2.5, 3), min_size=3, max_size=3),
+                  st.lists(st.integers(-2, 2).map(float), min_size=3, max_size=3))          # whole cell vectors: exactly structured
 _pbc1 = st.one_of(st.none(), st.none(), st.none(), st.sampled_from(gens.PBCS))
 
 
@@ -290,6 +376,11 @@ def displacement_cases(draw):
     elif mode == 'random':
         c['amp'] = draw(_amp)
         c['useed'] = draw(_seed)
+    elif mode == 'decades':
+        # one call whose per-atom displacements span ndec decades: atom i is displaced by dtop x 0.45 half-widths x 10**-(i % (ndec+1))
+        c['useed'] = draw(_seed)
+        c['ndec'] = draw(_ndec)
+        c['dtop'] = draw(_dtop)
     else:
         c['bigt'] = draw(_bigt)          # rigid translation in units of the cell vectors, atoms re-wrapped
         c['amp'] = draw(_amp)
@@ -321,3 +412,125 @@ def invariance_cases(draw):
         c['n_flip'] = draw(_bool)
         c['plane_ofs'] = [draw(_ofs), draw(_ofs)]
     return _with_history(draw, c, HISTORIES_NOBUILD)
+
+
+# ----------------------------------------------------------------------------- enumerated option combinations (class H)
+
+_NOHIST = {'ops0': [], 'ops1': [], 'build0': None, 'build1': None, 'decoy': False, 'repeat': False, 'forms': 0, 'intpos': False}
+_NOIO = {'pdt': 0, 'idt': 0, 'adt': 0, 'scal': 0, 'twin': False, 'scribble': False}
+_F0 = {'rot': [[1, -2, 3], 2.5], 'E': [0.6, -0.3, 0.2, 0.5, -0.4, 0.1], 'emag': 0.012}
+_F1 = {'rot': [[2, 1, -1], 1.5], 'E': [-0.2, 0.7, 0.1, -0.3, 0.2, 0.4], 'emag': 0.008}
+_MOVE = {'t': [0.7, -1.3, 0.4], 'boxshift': [0.31, -0.27, 0.44]}
+_PBCS = [[bool(i & 1), bool(i & 2), bool(i & 4)] for i in range(8)]
+_BUILD = {'state': 'other', 'pos': 0, 'box': 2, 'pbcflip': False, 'form': 0}
+_PROPS = ('G', 'strain', 'rotation', 'invariant1', 'invariant2', 'invariant3', 'angularvelocity', 'nye')
+_OPT_XTALS = (
+    {'kind': 'fcc', 'a': 3.6, 'ca': 0.0, 'orient': 1, 'extra': [0, 0, 0], 'rot': None, 'origin': [0.0, 0.0, 0.0], 'perm': 0, 'sperm': 0,
+     'vperm': 0, 'limit': None},
+    {'kind': 'bcc', 'a': 2.9, 'ca': 0.0, 'orient': 2, 'extra': [0, 0, 0], 'rot': [[1, 2, 2], 23.0], 'origin': [1.5, -2.0, 0.5], 'perm': 0,
+     'sperm': 0, 'vperm': 0, 'limit': None},
+    {'kind': 'hcp', 'a': 3.2, 'ca': 1.6, 'orient': 1, 'extra': [0, 0, 0], 'rot': None, 'origin': [0.0, 0.0, 0.0], 'perm': 0, 'sperm': 5,
+     'vperm': 0, 'limit': None},
+    {'kind': 'l12', 'a': 3.9, 'ca': 0.0, 'orient': 0, 'extra': [0, 0, 0], 'rot': [[3, -1, 2], 41.0], 'origin': [0.0, 0.0, 0.0], 'perm': 0,
+     'sperm': 0, 'vperm': 3, 'limit': None},
+)
+
+
+def _hist(**kw):
+    return dict(_NOHIST, **kw)
+
+
+def _strain_case(xt, **kw):
+    c = {'xtal': dict(xt), 'shells': {'gap': 0, 'frac': 0.5}, 'pbc': [True, True, True], 'F': _F0, 'move': _MOVE, 'theta': None,
+         'refmode': 'base', 'nbrmode': 'cutoff', 'wrapper': True, 'ddref': 0, 'ddlazy': 0, 'order': 0, 'shist': None, 'lscale': 0,
+         'io': dict(_NOIO), 'hist': _hist()}
+    c.update(kw)
+    return c
+
+
+def _slip_case(xt, **kw):
+    c = {'xtal': dict(xt), 'shells': {'gap': 0, 'frac': 0.5},
+         'slip': {'cut': 1, 'layer': 3, 'frac': 0.5, 'angle': 33.0, 'mag': 0.27, 'split': 0.7, 'inpbc': [True, True], 'cutpbc': False,
+                  'boxshift': [0.2, 0.0, -0.3]},
+         'm_angle': 20.0, 'n_flip': False, 'plane_ofs': [1.5, -2.5], 'ddref': 0, 'ddnbr': 'cutoff', 'svnbr': 'cutoff', 'nye': False,
+         'theta': None, 'ddlazy': 0, 'lscale': 0, 'io': dict(_NOIO), 'hist': _hist()}
+    c.update(kw)
+    return c
+
+
+def _disp_case(xt, **kw):
+    c = {'xtal': dict(xt), 'shells': {'gap': 0, 'frac': 0.5}, 'pbc': [True, True, True], 'mode': 'F', 'boxref': 'default', 'move': _MOVE,
+         'pbc1': None, 'F': _F0, 'lscale': 0, 'io': dict(_NOIO), 'hist': _hist()}
+    c.update(kw)
+    return c
+
+
+@functools.lru_cache(maxsize=None)
+def _option_cases(tier):
+    out = []
+    xtals = _OPT_XTALS[:1] if tier == 'quick' else _OPT_XTALS
+    stale = [{'op': 'attr', 'k': 1, 'x': 0.5}]            # a 'neighbors' attribute left by an earlier query with another cutoff
+    for nx, xt in enumerate(xtals):
+        # (1) reference vectors: form of p_vectors x axes option x neighbour-list route x second life of the Strain object
+        n = 0
+        for refmode in ('base', 'peratom', 'peratom_axes', 'single', 'axes', 'subset'):
+            for perm in (0, 1, 3, 4):               # list / 3-D array / wrapped single list / plain (n,3) array (see the oracle)
+                for nbr in ('cutoff', 'neighbors', 'attr'):
+                    for smode in (None, 'pvec'):
+                        sh = None if smode is None else {'mode': smode, 'F0': _F1, 'move0': _MOVE, 'e0': 0.004, 'reads0': ['strain'],
+                                                         'resolve': ('solve', 'clear', 'setter', 'solve_theta')[n % 4], 'build': _BUILD,
+                                                         'pset': n % 6}
+                        out.append(('strain', _strain_case(dict(xt, perm=perm), refmode=refmode, nbrmode=nbr, shist=sh,
+                                                           theta=(None, 20.0, 60.0)[n % 3], ddref=n % 2, ddlazy=n % 7,
+                                                           hist=_hist(ops0=stale if n % 2 else [], ops1=stale if n % 4 < 2 else []))))
+                        n += 1
+        # (2) cache of the Strain object: earlier state x property read in it x way of recomputing x first property read after
+        for smode in ('inplace', 'pvec', 'theta'):
+            for resolve in ('solve', 'solve_theta', 'clear', 'setter'):
+                for k, read0 in enumerate(_PROPS + ('asdict', 'save')):
+                    first = _PROPS[(k + n) % 8]
+                    sh = {'mode': smode, 'F0': _F1, 'move0': _MOVE, 'e0': 0.006, 'reads0': [read0], 'resolve': resolve, 'build': _BUILD,
+                          'pset': (n % 6) | 1 if k % 2 else n % 6}
+                    out.append(('strain', _strain_case(xt, shist=sh, names=[first], ddref=n % 2, ddlazy=n % 7, wrapper=False,
+                                                       refmode=('base', 'peratom')[n % 2])))
+                    n += 1
+        # (3) every ordered pair of properties read first from a fresh object
+        if nx == 0:
+            for a, b in itertools.permutations(_PROPS, 2):
+                out.append(('strain', _strain_case(xt, names=[a, b], wrapper=False, ddref=n % 2, ddlazy=n % 7)))
+                n += 1
+        # (4) slip: neighbour-list route of slip_vector x stale 'neighbors' attributes on either system
+        for sv in ('cutoff', 'neighbors', 'attr'):
+            for o0 in ([], stale, [{'op': 'nlist', 'k': 2, 'x': 0.5}], [{'op': 'r0', 'k': 0, 'x': 0.0}]):
+                for o1 in ([], stale):
+                    out.append(('slip', _slip_case(xt, svnbr=sv, hist=_hist(ops0=o0, ops1=o1), ddref=n % 2, ddlazy=n % 7, nye=(n % 3 == 0))))
+                    n += 1
+        # (5) slip: reference x list route x construction route of DifferentialDisplacement x in-place history of the systems
+        for ddref in (0, 1):
+            for ddnbr in ('cutoff', 'neighbors'):
+                for lazy in range(7):
+                    for b0, b1 in ((None, None), (None, _BUILD), (dict(_BUILD, pbcflip=True), _BUILD)):
+                        out.append(('slip', _slip_case(xt, ddref=ddref, ddnbr=ddnbr, ddlazy=lazy, hist=_hist(build0=b0, build1=b1),
+                                                       svnbr=('cutoff', 'neighbors', 'attr')[n % 3])))
+                        n += 1
+        # (6) slip: cut axis x periodicity of the three axes (the flags handed to the compiled kernels one by one)
+        for cut in range(3):
+            for pb in _PBCS:
+                sl = dict(_slip_case(xt)['slip'], cut=cut, inpbc=[pb[0], pb[1]], cutpbc=pb[2], boxshift=[0.45, -0.35, 0.4])
+                out.append(('slip', _slip_case(xt, slip=sl, ddref=n % 2, svnbr=('cutoff', 'neighbors', 'attr')[n % 3])))
+                n += 1
+        # (7) displacement: box_reference x periodicity declared by either system
+        for br in ('default', 'final', 'initial', 'none'):
+            for p0 in _PBCS:
+                for p1 in _PBCS:
+                    if tier == 'quick' and br in ('default', 'none') and p0 != p1 and (n % 2):
+                        n += 1
+                        continue
+                    out.append(('displacement', _disp_case(xt, boxref=br, pbc=p0, pbc1=p1, mode=('F', 'random')[n % 2], amp=0.4, useed=7 + n,
+                                                           hist=_hist(forms=2 if n % 3 == 0 else 0))))
+                    n += 1
+    return [{'kind': k, 'case': c} for k, c in out]
+
+
+def option_cases(tier):
+    return copy.deepcopy(_option_cases(tier))
